@@ -1,7 +1,8 @@
 PROP = {
  "id": "C07",
  "specs": [
-  "specs.geometry"
+  "specs.geometry",
+  "specs.geometry_quad"
  ],
  "functions": [
   "mouette.geometry.geometry.dot",
@@ -13,7 +14,8 @@ PROP = {
   "mouette.geometry.geometry.det_2x2",
   "mouette.geometry.geometry.project_to_plane",
   "mouette.geometry.geometry.angle_3pts",
-  "mouette.geometry.vector.Vec.normalized"
+  "mouette.geometry.vector.Vec.normalized",
+  "mouette.geometry.geometry.quad_area"
  ],
  "level": "other",
  "explanation": "Deductive part: the primitives every per-element quantity is computed with equal their textbook definitions over the reals (exact cross/dot/determinant, norms, distance, triangle area as half the norm of the cross product, projection, unit normalisation, three-point angle in [0,pi]). The attribute loops over mesh containers (corner indexing, weighting modes, border handling), rigid-motion invariance, angle sums and constant interpolation are decided only by the bounded native contract (not a proof).",
